@@ -303,7 +303,9 @@ def build():
                   probability=True, random_state=0), clus=KMeans(n_clusters=3, n_init=1, random_state=1))],
              clf_data, clf3, methods=["predict", "predict_proba", "decision_function"],
              rowwise=["predict", "predict_proba", "decision_function"],
-             alts={"c_init": [lambda: "random"], "c_algorithm": [lambda: "lloyd"], "c_random_state": [lambda: 3],
+             alts={"clus": [lambda: __import__("sklearn.cluster", fromlist=["Birch"]).Birch(n_clusters=2),
+                            lambda: KMeans(n_clusters=2, n_init=1, random_state=5)],
+                   "c_init": [lambda: "random"], "c_algorithm": [lambda: "lloyd"], "c_random_state": [lambda: 3],
                    "e_solver": [lambda: "lbfgs"], "e_class_weight": [lambda: "balanced"],
                    "e_random_state": [lambda: 2], "c_n_init": [lambda: 2], "e_l1_ratio": [lambda: 0.0]}))
     add(Spec("ExtendedFeatures",
